@@ -33,3 +33,26 @@ package rtpvp9
 //@   ensures[C07] d.fragmentsSize != 0 && vpkt.B ==> d.fragmentNextSeqNum == pkt.SequenceNumber + 1 && d.fragmentsSize == len(vpkt.Payload)
 //@   ensures[C08] err == nil ==> len(ret) >= 1 && len(ret) <= vp9.MaxFrameSize
 //@   modifies *
+
+// --- encoder (C06) -------------------------------------------------------------------------
+// The pion payloader cuts the frame (assumed: payloads of at most mtu bytes); the wrapper numbers
+// the packets consecutively from the encoder state, sets the marker on the last one and
+// copies payload type and SSRC. PayloadMaxSize must fit the payloader's 16-bit mtu.
+//@ func (e *Encoder) Encode
+//@   opt frame-tag=C06
+//@   opt typeinv=off
+//@   requires e.SSRC != nil && e.PayloadMaxSize >= 1 && e.PayloadMaxSize <= 65535 && len(frame) >= 1
+//@   ensures[C06] err == nil && len(ret) >= 0
+//@   ensures[C06] forall j :: 0 <= j && j < len(ret) ==> ret[j] != nil && len(ret[j].Payload) <= e.PayloadMaxSize && len(ret[j].Payload) >= 1
+//@   ensures[C06] forall j :: 0 <= j && j < len(ret) ==> ret[j].SequenceNumber == old(e.sequenceNumber) + uint16(j)
+//@   ensures[C06] e.sequenceNumber == old(e.sequenceNumber) + uint16(len(ret))
+//@   ensures[C06] forall j :: 0 <= j && j < len(ret) ==> ret[j].PayloadType == e.PayloadType && ret[j].SSRC == *e.SSRC && (ret[j].Marker <==> j == len(ret)-1)
+//@   modifies e.sequenceNumber, e.vp, fresh
+//@   loop 1
+//@     invariant 0 <= _i && _i <= plen && len(ret) == plen && plen == len(payloads) && fresh(ret) && fresh(payloads)
+//@     invariant e.SSRC == old(e.SSRC) && e.PayloadMaxSize == old(e.PayloadMaxSize) && e.PayloadType == old(e.PayloadType) && *e.SSRC == old(*e.SSRC)
+//@     invariant e.sequenceNumber == old(e.sequenceNumber) + uint16(_i)
+//@     invariant forall j :: 0 <= j && j < len(payloads) ==> len(payloads[j]) <= e.PayloadMaxSize && len(payloads[j]) >= 1
+//@     invariant forall j :: 0 <= j && j < _i ==> ret[j] != nil && fresh(ret[j]) && len(ret[j].Payload) <= e.PayloadMaxSize && len(ret[j].Payload) >= 1
+//@     invariant forall j :: 0 <= j && j < _i ==> ret[j].SequenceNumber == old(e.sequenceNumber) + uint16(j)
+//@     invariant forall j :: 0 <= j && j < _i ==> ret[j].PayloadType == e.PayloadType && ret[j].SSRC == *e.SSRC && (ret[j].Marker <==> j == plen-1)
